@@ -3,17 +3,19 @@ module github.com/go-task/task/v3/verifharness
 go 1.23.0
 
 require (
+	github.com/Masterminds/semver/v3 v3.3.1
+	github.com/alecthomas/chroma/v2 v2.16.0
+	github.com/chainguard-dev/git-urls v1.0.2
 	github.com/go-task/task/v3 v3.0.0
+	github.com/spf13/pflag v1.0.6
 	gopkg.in/yaml.v3 v3.0.1
+	mvdan.cc/sh/v3 v3.11.0
 )
 
 require (
 	dario.cat/mergo v1.0.0 // indirect
 	github.com/Ladicle/tabwriter v1.0.0 // indirect
-	github.com/Masterminds/semver/v3 v3.3.1 // indirect
 	github.com/ProtonMail/go-crypto v1.1.6 // indirect
-	github.com/alecthomas/chroma/v2 v2.16.0 // indirect
-	github.com/chainguard-dev/git-urls v1.0.2 // indirect
 	github.com/cloudflare/circl v1.6.1 // indirect
 	github.com/cyphar/filepath-securejoin v0.4.1 // indirect
 	github.com/davecgh/go-spew v1.1.1 // indirect
@@ -52,7 +54,6 @@ require (
 	golang.org/x/sys v0.32.0 // indirect
 	golang.org/x/term v0.31.0 // indirect
 	gopkg.in/warnings.v0 v0.1.2 // indirect
-	mvdan.cc/sh/v3 v3.11.0 // indirect
 )
 
 replace github.com/go-task/task/v3 => /repo
